@@ -331,6 +331,7 @@ def run(chk):
     hunt2_rules(chk, repo, hf)
     hunt3_rules(chk, repo)
     hunt4_rules(chk, repo)
+    hold_rule(chk, repo)
 
 
 def _self_attrs_set(cls, stmts, depth=1):
@@ -395,6 +396,86 @@ def hunt3_rules(chk, repo):
                               f"{cname} closes the connection (1006) for a missing PONG although its own flow control has paused reading (the application is slow to consume a burst): the PONG sits unread in the socket buffer, the peer is alive")
         if not verdicts:
             chk.analysis_error(f"C12.heartbeat.paused: {cname}._pong_not_received does not call _handle_ping_pong_exception")
+
+
+def hold_rule(chk, repo, rule="C12.hold", why=None):
+    """Rule written after seeding round 6 (seeds C12-6, C13-6): frames kept back by flow control are never dropped.
+    The reader that stopped in the middle of a chunk registers itself in `<queue>._held_reader`; the rest of the chunk (complete frames, possibly
+    the peer's Close or a protocol violation) lives only in that reader's tail.  So the registration may be cleared only by a statement that takes
+    the reader over (`x, self._held_reader = self._held_reader, None`, or after `x = self._held_reader`), the reader taken over is replayed on
+    every way out, and nothing is cleared after a replay: the replay re-enters the queue and may register the reader again."""
+    from sa.cfg import EXPLICIT, cfg_of
+    why = why or "the frames held back by flow control are lost: the consumer gets a strict prefix of the messages the peer sent (data, the Close frame or the 1002/1007/1009 verdict are never decoded) although the same bytes delivered frame by frame are decoded in full"
+    n_clear = n_reg = 0
+    for rel in ("aiohttp/_websocket/reader_py.py", "aiohttp/client_proto.py", "aiohttp/web_ws.py", "aiohttp/client_ws.py", "aiohttp/web_protocol.py", "aiohttp/base_protocol.py"):
+        mod = repo.module(rel)
+        for fn in mod.functions.values():
+            if fn.name == "__init__":
+                continue
+            stores = []
+            for st in ast.walk(fn.node):
+                if isinstance(st, ast.Assign):
+                    for t in st.targets:
+                        for tt, vv in (zip(t.elts, st.value.elts) if isinstance(t, ast.Tuple) and isinstance(st.value, ast.Tuple) and len(t.elts) == len(st.value.elts) else [(t, st.value)]):
+                            if isinstance(tt, ast.Attribute) and tt.attr == "_held_reader":
+                                stores.append((st, tt, vv))
+                elif isinstance(st, (ast.AnnAssign, ast.AugAssign, ast.Delete)):
+                    tg = st.targets if isinstance(st, ast.Delete) else [st.target]
+                    for tt in tg:
+                        if isinstance(tt, ast.Attribute) and tt.attr == "_held_reader":
+                            stores.append((st, tt, getattr(st, "value", None)))
+            if not stores:
+                continue
+            g = cfg_of(fn.node)
+            for st, tt, vv in stores:
+                if vv is not None and norm.raw(vv) == "self":
+                    n_reg += 1
+                    continue
+                n_clear += 1
+                held = norm.raw(tt)
+                # names that hold the reader: `x = <held>` / `x, <held> = <held>, None`
+                caps = {}
+                for c in ast.walk(fn.node):
+                    if isinstance(c, ast.Assign):
+                        for t in c.targets:
+                            for a, b in (zip(t.elts, c.value.elts) if isinstance(t, ast.Tuple) and isinstance(c.value, ast.Tuple) and len(t.elts) == len(c.value.elts) else [(t, c.value)]):
+                                if isinstance(a, ast.Name) and norm.raw(b) == held:
+                                    caps.setdefault(a.id, []).append(c)
+                    elif isinstance(c, ast.NamedExpr) and norm.raw(c.value) == held:
+                        caps.setdefault(c.target.id, []).append(K.stmt_of(c))
+                sn = [n for n in g.nodes if n.in_finally_copy is None and n.ast is st]
+                if not sn:
+                    continue
+                def feeds(n, names):
+                    return any(isinstance(c.func, ast.Attribute) and c.func.attr in ("feed_data", "_feed_data") and norm.raw(c.func.value) in names for c in K.node_calls(n))
+                capnodes = [n for n in g.nodes if n.in_finally_copy is None and any(n.ast is c for cs in caps.values() for c in cs)]
+                # (a) the store is reached only through a take-over
+                unowned = None if any(n.ast is st for n in capnodes) else g.find_path([g.entry], lambda n: n in sn, lambda n: n in capnodes, EXPLICIT)
+                if not caps or unowned is not None:
+                    chk.violation(rule, st, K.short(st), f"x, {held} = {held}, None ... x.feed_data(b'')", f"{fn.qualname}() clears the registration of the held reader without taking the reader over: " + why,
+                                  path=g.fmt_path(unowned) if unowned else None)
+                    continue
+                names = set(caps) | {held}
+                # (b) nothing is replayed between the take-over and the clearing (the replay may register the reader again)
+                erase = None
+                if not any(n.ast is st for n in capnodes):
+                    for f in (n for n in g.nodes if n.in_finally_copy is None and isinstance(getattr(n, "ast", None), ast.AST) and feeds(n, names)):
+                        if g.find_path(capnodes, lambda n: n is f, lambda n: n in sn, EXPLICIT) is not None and g.find_path([f], lambda n: n in sn, lambda n: False, EXPLICIT) is not None:
+                            erase = [f] + sn
+                            break
+                if erase is not None:
+                    chk.violation(rule, st, K.short(st), f"x, {held} = {held}, None before x.feed_data(b'')", f"{fn.qualname}() clears the registration after replaying the held reader: the replay re-enters the queue, and when the replayed frames fill it again the reader registers itself once more - that registration is erased, the rest of the chunk stays in the reader's tail and receive() waits for a Close frame that arrived long ago",
+                                  path=g.fmt_path(erase))
+                    continue
+                # (c) the reader taken over is replayed on every way out
+                lost = g.find_path(sn, lambda n: n.kind == "exit" or (n.kind == "stmt" and isinstance(n.ast, ast.Return)), lambda n: feeds(n, set(caps)), EXPLICIT)
+                if lost is not None:
+                    chk.violation(rule, st, K.short(st), "x.feed_data(b'') on every path after the take-over", f"{fn.qualname}() takes the held reader over and leaves without replaying it: " + why, path=g.fmt_path(lost))
+                else:
+                    chk.ok(rule, st, f"{fn.qualname}(): the held reader is taken over in the statement that clears the registration and replayed on every path after it")
+    if n_reg < 1 or n_clear < 1:
+        chk.analysis_error(f"{rule}: registration ({n_reg}) / hand-over ({n_clear}) of the held reader not found")
+    chk.expect_count(rule, n_clear, 1, "statements that clear the held-reader registration")
 
 
 def hunt4_rules(chk, repo):
